@@ -1009,8 +1009,7 @@ def model_disagreements(c, R, M):
                 x = [x[0]] + x[3:]
             rank = int(x[1])
             dims, nt, data = x[2:2 + rank], int(x[2 + rank]), x[3 + rank]
-            if not model:
-                data = to_file_order(nt, data)
+            # (the model lines carry the values already converted to memory order by MixModel.convert)
             out.append((rank, tuple(dims), nt, data))
         return out
 
